@@ -583,11 +583,11 @@ class Sym:
         return s_fun('arctan', self)
 
     def radians(self):
-        return self * sp.pi / 180
+        return self * PI / 180
     deg2rad = radians
 
     def degrees(self):
-        return self * 180 / sp.pi
+        return self * 180 / PI
     rad2deg = degrees
 
     def isnan(self):
@@ -791,15 +791,17 @@ def s_sign(a):
 
 
 def _angle_terms(e):
-    """split angle into sum of (integer multiple, base) + constant; None if not possible"""
+    """split an angle into a closed constant (PI substituted by pi) and terms (coefficient, base)"""
     e = sp.expand(e)
     terms = []
     const = sp.S.Zero
     for t in sp.Add.make_args(e):
-        if t.is_number:
-            const += t
+        if t.free_symbols <= {PI}:
+            const += t.subs(PI, sp.pi)
             continue
         c, base = t.as_coeff_Mul()
+        if base.could_extract_minus_sign():
+            c, base = -c, -base
         terms.append((c, base))
     return const, terms
 
@@ -829,9 +831,11 @@ def _cos_sin(a):
     a = lift(a)
     if a.kind != FIN:
         return Sym(0, NAN), Sym(0, NAN)
-    e = a.e.subs(PI, sp.pi)
+    e = a.e
     if e.has(sp.I):
         raise Unsupported('trig of complex argument')
+    if e.free_symbols <= {PI}:
+        e = e.subs(PI, sp.pi)
     if e.is_number:
         c, s = sp.cos(e), sp.sin(e)
         if c.is_Rational and s.is_Rational:
@@ -858,11 +862,6 @@ def _cos_sin(a):
             c0, s0 = _trig_atom(p, const.subs(sp.pi, PI))
         cc, ss = c0, s0
     for coef, base in terms:
-        # canonical sign of the base
-        _, cb, flip = canon(base)
-        if flip:
-            coef = -coef
-        base = cb
         if coef.is_Integer:
             n = int(coef)
             cb_, sb_ = _trig_atom(p, base)
